@@ -95,10 +95,13 @@ class Gen:
     def mat(self, r, c, lo=-2, hi=2):
         return [[float(self.rng.randint(lo, hi)) for _ in range(c)] for _ in range(r)]
 
-    def new_arr(self, shape, vals=None, dtype="float64", plain=False):
+    def new_arr(self, shape, vals=None, dtype="float64", plain=False, layout=None):
         """a caller-owned ndarray with the given content: a plain array or (about one in five) a
         view of a larger pool array (slice with guard cells, every second element, reshaped,
-        transposed), so that writes through the argument and writes next to it are both seen"""
+        transposed), so that writes through the argument and writes next to it are both seen.
+        `layout` forces the memory layout of a 2-D array: "F" = column-major copy
+        (np.asfortranarray), "T" = the transpose of a row-major pool array (the way a dual
+        system is written: A.T), "slice" = non-contiguous window of a larger array"""
         rng = self.rng
         shape = tuple(shape)
         if vals is None:
@@ -106,6 +109,11 @@ class Gen:
                 vals = [float(rng.randint(-3, 3)) for _ in range(shape[0])]
             else:
                 vals = self.mat(shape[0], shape[1])
+        if layout in ("T", "slice") and len(shape) == 2 and 0 not in shape:
+            return self.new_view(shape, vals, dtype, how=layout)
+        if layout == "F" and len(shape) == 2:
+            return self.new("arr", {"v": vals, "dtype": dtype, "order": "F"},
+                            {"shape": list(shape), "dtype": dtype, "order": "F"}, "a")
         if plain or 0 in shape or rng.random() >= 0.2:
             spec = {"v": vals, "dtype": dtype}
             if len(shape) == 2 and min(shape) > 1 and rng.random() < 0.1:
@@ -113,10 +121,12 @@ class Gen:
             return self.new("arr", spec, {"shape": list(shape), "dtype": dtype}, "a")
         return self.new_view(shape, vals, dtype)
 
-    def new_view(self, shape, vals, dtype="float64"):
+    def new_view(self, shape, vals, dtype="float64", how=None):
         rng = self.rng
         pad = 9.0
-        if len(shape) == 1:
+        if how is not None:
+            r, c = shape
+        elif len(shape) == 1:
             n = shape[0]
             how = rng.choice(["slice", "slice", "stride", "reshape"])
             if how == "slice":
@@ -129,6 +139,7 @@ class Gen:
         else:
             r, c = shape
             how = rng.choice(["slice", "T", "reshape"])
+        if len(shape) == 2:
             if how == "slice":
                 base = [list(row) + [pad] for row in vals] + [[pad] * (c + 1)]
                 spec = {"how": "slice", "off": [0, 0]}
@@ -190,23 +201,103 @@ class Gen:
                 A[i][i + 1] = float(self.rng.randint(-2, 2))
         return A
 
+    A_FORMS = ["upper", "upper", "lower", "full", "full", "companion", "rot", "hess"]
+
+    def state_A(self, n, form=None):
+        """a stable state matrix with small integer entries in one of several *structures*.  The
+        bidiagonal upper-triangular form of `stable_A` is already a real Schur form (and
+        balanced, and Hessenberg): every in-place LAPACK reduction (eigenvalues, Schur, Hessenberg,
+        LU without pivoting ...) leaves it as it is, so a routine that overwrites the matrix it is
+        given cannot be seen on it.  Forms: upper / lower bidiagonal, full (L U L^-1 with a unit
+        lower triangular integer L: same real eigenvalues), companion (of a polynomial with
+        negative integer roots), rot (2x2 blocks [[-a, b], [-b, -a]]: complex poles), hess
+        (upper triangular plus a sub-diagonal, rows scaled apart: balancing changes it)"""
+        rng = self.rng
+        U = self.stable_A(n)
+        form = form or rng.choice(self.A_FORMS)
+        if n == 1 or form == "upper":
+            return U
+        if form == "lower":
+            return [[U[j][i] for j in range(n)] for i in range(n)]
+        if form == "full":
+            L = [[1.0 if i == j else (float(rng.randint(-1, 1)) if j < i else 0.0) for j in range(n)] for i in range(n)]
+            if all(L[i][j] == 0 for i in range(n) for j in range(i)):
+                L[n - 1][0] = 1.0
+            Li = [[1.0 if i == j else 0.0 for j in range(n)] for i in range(n)]      # L^-1 by forward substitution
+            for i in range(n):
+                for j in range(i):
+                    Li[i][j] = -sum(L[i][k] * Li[k][j] for k in range(j, i))
+            mul = lambda X, Y: [[sum(X[i][k] * Y[k][j] for k in range(n)) for j in range(n)] for i in range(n)]
+            return mul(mul(L, U), Li)
+        if form == "companion":
+            c = [1.0]
+            for _ in range(n):                      # prod (s + r), r = 1..3
+                r = float(rng.randint(1, 3))
+                c = [a + r * b for a, b in zip(c + [0.0], [0.0] + c)]
+            A = [[1.0 if j == i + 1 else 0.0 for j in range(n)] for i in range(n)]
+            A[n - 1] = [-c[n - j] for j in range(n)]
+            return A if rng.random() < 0.5 else [[A[j][i] for j in range(n)] for i in range(n)]
+        if form == "rot":
+            A = [[0.0] * n for _ in range(n)]
+            i = 0
+            while i < n:
+                a = float(rng.randint(1, 3))
+                if i + 1 < n:
+                    b = float(rng.randint(1, 3))
+                    A[i][i], A[i][i + 1], A[i + 1][i], A[i + 1][i + 1] = -a, b, -b, -a
+                    if i + 2 < n and rng.random() < 0.6:
+                        A[i + 1][i + 2] = float(rng.randint(-2, 2))
+                    i += 2
+                else:
+                    A[i][i] = -a
+                    i += 1
+            return A
+        # hess
+        A = [row[:] for row in U]
+        for i in range(1, n):
+            A[i][i - 1] = float(rng.choice([-1, 1]))
+            A[i - 1][i] = float(rng.choice([-2, -1, 1, 2])) * 4.0
+        A[0][n - 1] = 8.0
+        for i in range(n):                           # keep it stable: diagonally dominant in the columns
+            A[i][i] = -(abs(A[i][i]) + sum(abs(A[k][i]) for k in range(n) if k != i))
+        return A
+
+    def scaled(self, A):
+        """a discrete-time version of a matrix produced by `state_A` (spectral radius <= 4.25,
+        except form "hess": Gershgorin bound over the columns)"""
+        n = len(A)
+        g = max(sum(abs(A[k][i]) for k in range(n)) for i in range(n))
+        hess = n > 1 and A[0][n - 1] == 8.0
+        sc = 5.0 if not hess else float(max(5, int(g * 1.25) + 1))
+        return [[x / sc for x in r] for r in A]
+
     def rnd_dt(self):
         return self.rng.choice(["C"] * 7 + ["N", "N", "T", 0.1, 0.1, 0.5])
 
-    def new_ss(self, p=None, m=None, dt=None, via=None, name=None):
+    # how the caller holds the four matrices of a state-space system: literal lists, pool arrays
+    # (row-major, sometimes a view), pool arrays all in column-major order (np.asfortranarray),
+    # the transposes of row-major pool arrays (a dual system: ss(A.T, C.T, B.T, D)), non-contiguous
+    # windows of larger arrays.  np.array(..., dtype=float) in the constructor keeps the memory
+    # order of its argument, so "F" and "T" give a system whose own matrices are column-major
+    SS_VIA = ["lit", "lit", "lit", "arr", "arr", "F", "T", "slice"]
+
+    def new_ss(self, p=None, m=None, dt=None, via=None, name=None, n=None, form=None):
         rng = self.rng
         if p is None:
             p, m = rng.choice([(1, 1)] * 5 + [(2, 2)] * 3 + [(1, 2), (2, 1)])
-        n = rng.choice([1, 2, 2, 3])
+        n = n or rng.choice([1, 2, 2, 3])
         dt = self.rnd_dt() if dt is None else dt
-        A, B, C = self.stable_A(n), self.mat(n, m), self.mat(p, n)
+        A, B, C = self.state_A(n, form), self.mat(n, m), self.mat(p, n)
         Dm = self.mat(p, m, 0, 1) if rng.random() < 0.5 else [[0.0] * m for _ in range(p)]
         if dt not in ("C", "N"):   # discrete: keep it stable-ish
-            A = [[x / 5.0 for x in r] for r in A]
-        via = via or rng.choice(["lit", "lit", "arr"])
+            A = self.scaled(A)
+        via = via or rng.choice(self.SS_VIA)
         if via == "arr":
             abcd = [ref(self.new_arr((n, n), A)), ref(self.new_arr((n, m), B)),
                     ref(self.new_arr((p, n), C)), ref(self.new_arr((p, m), Dm))]
+        elif via in ("F", "T", "slice"):
+            abcd = [ref(self.new_arr((n, n), A, layout=via)), ref(self.new_arr((n, m), B, layout=via)),
+                    ref(self.new_arr((p, n), C, layout=via)), ref(self.new_arr((p, m), Dm, layout=via))]
         else:
             abcd = [A, B, C, Dm]
         spec = {"abcd": abcd}
@@ -221,7 +312,7 @@ class Gen:
                 kw[key] = self.labels(pre, cnt)
         if kw:
             spec["kw"] = kw
-        return self.new("ss", spec, {"p": p, "m": m, "n": n, "dt": dt, "name": kw.get("name")}, "s")
+        return self.new("ss", spec, {"p": p, "m": m, "n": n, "dt": dt, "name": kw.get("name"), "via": via}, "s")
 
     def poly(self, deg, pos=False):
         rng = self.rng
@@ -679,14 +770,15 @@ class Gen:
     def op_matrix(self):
         rng = self.rng
         n = rng.choice([2, 2, 3])
-        A = self.new_arr((n, n), self.stable_A(n))
+        lay = rng.choice([None, None, None, "F", "T"])       # the caller's matrix may be column-major
+        A = self.new_arr((n, n), self.state_A(n), layout=lay)
         B = self.new_arr((n, 1), [[1.0]] + [[0.0]] * (n - 1)) if rng.random() < 0.5 else self.new_arr((n, 1))
         eye = [[1.0 if i == j else 0.0 for j in range(n)] for i in range(n)]
         fn = rng.choice(["ctrb", "obsv", "lyap", "dlyap", "lqr_abqr", "place", "acker", "lqr", "dlqr", "lqe",
                          "care", "dare"])
         if fn in ("dlqr", "lqe", "care", "dare"):
             if fn in ("dlqr", "dare"):
-                A = self.new_arr((n, n), [[x / 5.0 for x in r] for r in self.stable_A(n)])
+                A = self.new_arr((n, n), self.scaled(self.state_A(n)), layout=lay)
             Q = self.new_arr((n, n), eye)
             R = self.new_arr((1, 1), [[1.0]])
             if fn == "lqe":
@@ -703,7 +795,7 @@ class Gen:
         elif fn in ("lyap", "dlyap"):
             Q = self.new_arr((n, n), eye)
             if fn == "dlyap":
-                A = self.new_arr((n, n), [[x / 5.0 for x in r] for r in self.stable_A(n)])
+                A = self.new_arr((n, n), self.scaled(self.state_A(n)), layout=lay)
             self.emit(["op", None, fn, [ref(A), ref(Q)], {}])
         elif fn == "lqr_abqr":
             Q = self.new_arr((n, n), eye)
@@ -722,6 +814,19 @@ class Gen:
             pl = ref(self.new_arr((n,), poles)) if rng.random() < 0.5 else poles
             self.emit(["op", None, fn, [ref(A), ref(B), pl], {}])
 
+    def transform_T(self, n):
+        """an invertible transformation matrix: unit upper bidiagonal (keeps a triangular A
+        triangular) or the product of a unit lower and a unit upper triangular matrix (det 1,
+        fills A in)"""
+        rng = self.rng
+        T = [[1.0 if i == j else (0.5 if j == i + 1 else 0.0) for j in range(n)] for i in range(n)]
+        if n > 1 and rng.random() < 0.6:
+            L = [[1.0 if i == j else (float(rng.choice([-1, 1, 1, 0])) if j < i else 0.0) for j in range(n)]
+                 for i in range(n)]
+            L[n - 1][0] = L[n - 1][0] or 1.0
+            T = [[sum(L[i][k] * T[k][j] for k in range(n)) for j in range(n)] for i in range(n)]
+        return T
+
     def op_transform(self):
         rng = self.rng
         a = self.pick(lambda d: d["k"] == "ss" and d.get("n") is not None and "abcd" not in d) or self.new_ss()
@@ -729,8 +834,7 @@ class Gen:
         n = da.get("n") or 2
         fn = rng.choice(["similarity_transform", "canonical_form", "minreal", "m_minreal", "modred"])
         if fn == "similarity_transform":
-            T = [[1.0 if i == j else (0.5 if j == i + 1 else 0.0) for j in range(n)] for i in range(n)]
-            self.emit(["op", self.out(self.res_desc(a)), fn, [ref(a), ref(self.new_arr((n, n), T))], {}])
+            self.emit(["op", self.out(self.res_desc(a)), fn, [ref(a), ref(self.new_arr((n, n), self.transform_T(n)))], {}])
         elif fn == "canonical_form":
             self.emit(["op", None, fn, [ref(a), rng.choice(["reachable", "observable", "modal"])], {}])
         elif fn == "modred":
@@ -1160,11 +1264,13 @@ class Gen:
         n = rng.choice([1, 2, 2, 3])
         m = rng.choice([1, 1, 2])
         dt = rng.choice(["C", "C", 0.1])
-        A = self.stable_A(n)
+        A = self.state_A(n)
         if dt != "C":
-            A = [[x / 5.0 for x in row] for row in A]
+            A = self.scaled(A)
         eye = [[1.0 if i == j else 0.0 for j in range(n)] for i in range(n)]
         spec = {"abcd": [A, self.mat(n, m), eye, [[0.0] * m for _ in range(n)]]}
+        if rng.random() < 0.25:       # the system's own matrices column-major
+            spec["abcd"] = [ref(self.new_arr((len(M), len(M[0])), M, layout=rng.choice(["F", "T"]))) for M in spec["abcd"]]
         if dt != "C":
             spec["dt"] = dt
         if rng.random() < 0.5:
@@ -1973,9 +2079,186 @@ def sweep_problem_history(rng, tier):
     return cases
 
 
+def system_queries(g, S, d, tier, plots=True):
+    """operations that *read* a state-space system (p x m, n >= 2 states): queries, evaluations,
+    responses, conversions, transformations, matrix functions applied to the system's own
+    matrices (as `ssdata` hands them out), binary operations with the system on both sides.  None
+    of them may change the system.  Entries: (opname, args, kw, keep-result-slot-or-None)"""
+    rng = g.rng
+    p, m, n, dt = d["p"], d["m"], d["n"], d["dt"]
+    siso, cont, square = (p, m) == (1, 1), dt == "C", p == m
+    R = ref(S)
+    eye = lambda k: [[1.0 if i == j else 0.0 for j in range(k)] for i in range(k)]
+    h = 0.1 if dt in ("C", "N", "T") else dt
+    h = 1.0 if dt == "T" else h
+    nt = 5
+    T = [round(i * h, 10) for i in range(nt)]
+    omega = [0.1, 1.0, 10.0] if cont else [0.1, 1.0, 3.0]
+    x0 = [float(rng.randint(-2, 2)) for _ in range(n)]
+    u0 = [float(rng.randint(-2, 2)) for _ in range(m)]
+    U = [[float(rng.randint(-2, 2)) for _ in range(nt)] for _ in range(m)]
+    Q = []
+
+    def add(op, args, kw=None, out=None):
+        Q.append((op, args, kw or {}, out))
+
+    for fn in ("poles", "m_poles", "damp", "m_damp", "zeros", "m_zeros", "dcgain", "m_dcgain", "pole_zero_map",
+               "tfdata", "str", "repr", "latex", "m_scipy", "isctime", "m_isctime", "issiso", "m_issiso"):
+        add(fn, [R])
+    z = rng.choice([{"cplx": [0.0, 1.0]}, {"cplx": [0.5, 2.0]}, 1.0, 0])
+    add("m_call", [R, z]); add("evalfr", [R, z])
+    add("m_freqresp", [R, omega]); add("frequency_response", [R, omega])
+    add("frequency_response", [R, None])            # default frequency range: from the poles and zeros
+    add("frd", [R, omega], out="res")
+    add("singular_values_response", [R])
+    add("norm", [R, 2]); add("norm", [R, "inf"])
+    add("step_info", [R])
+    add("step_response", [R]); add("impulse_response", [R])      # default time vector: from the poles
+    add("step_response", [R, T]); add("initial_response", [R, T, x0])
+    add("forced_response", [R, T, U if m > 1 else U[0]]); add("forced_response", [R, T, U if m > 1 else U[0], x0])
+    add("input_output_response", [R, T, U if m > 1 else U[0], x0])
+    add("lti_dynamics", [R, 0, x0, u0]); add("lti_output", [R, 0, x0, u0])
+    add("linearize", [R, x0, u0], out="res"); add("m_linearize", [R, x0, u0])
+    add("find_operating_point", [R, x0, u0])
+    # conversions / copies / transformations of the system
+    for fn in ("m_copy", "neg", "ss", "StateSpace", "nlsys_of", "ss2tf", "m_to_tf", "tf", "m_to_ss", "minreal",
+               "m_minreal"):
+        add(fn, [R], out="res")
+    add("canonical_form", [R, "reachable"]); add("canonical_form", [R, "observable"]); add("canonical_form", [R, "modal"])
+    add("similarity_transform", [R, ref(g.new_arr((n, n), g.transform_T(n), plain=True))], out="res")
+    add("modred", [R, [n - 1], "truncate"], out="res"); add("modred", [R, [n - 1], "matchdc"], out="res")
+    add("model_reduction", [R], {"keep_states": list(range(n - 1)), "method": "matchdc", "warn_unstable": False}, out="res")
+    if cont:
+        for meth in ("zoh", "bilinear", "euler"):
+            add("c2d", [R, 0.1, meth], out="res")
+        add("m_sample", [R, 0.1, "zoh"], out="res")
+        add("sample_system", [R, 0.1], {"method": "foh"}, out="res")
+        add("sample_system", [R, 0.1], {"method": "gbt", "alpha": 0.5}, out="res")
+        add("lqr", [R, eye(n), eye(m)])
+    else:
+        add("dlqr", [R, eye(n), eye(m)])
+    add("lqe", [R, eye(m), eye(p)])
+    add("create_estimator_iosystem", [R, eye(m), eye(p)], out="res")
+    if siso:
+        for fn in ("stability_margins", "margin", "bandwidth", "nyquist_response") + \
+                (("root_locus_map",) if tier != "quick" else ()):          # 1 s per call
+            add(fn, [R])
+        add("gangof4_response", [R, R])
+        add("pow", [R, 2], out="res"); add("pow", [R, -1], out="res"); add("div", [R, R], out="res")
+        add("div", [1, R], out="res")
+    # the system as both operands / next to scalars and arrays
+    add("add", [R, R], out="res"); add("sub", [R, R], out="res"); add("parallel", [R, R], out="res")
+    add("append", [R, R], out="res"); add("m_append", [R, R], out="res")
+    add("mul", [2.0, R], out="res"); add("mul", [R, ref(g.new_arr((m, m), plain=True))], out="res")
+    add("add", [R, ref(g.new_arr((p, m), plain=True))], out="res")
+    add("getitem", [R, 0, 0], out="res")
+    if square:
+        add("mul", [R, R], out="res"); add("series", [R, R], out="res")
+        add("feedback", [R, 1], out="res"); add("feedback", [R, R], out="res"); add("m_feedback", [R, R], out="res")
+    # matrix functions on the system's own matrices, as `ssdata` (or attribute access) hands them out
+    sd = g.fresh("r")
+    A, B, C = {"item": [sd, 0]}, {"item": [sd, 1]}, {"item": [sd, 2]}
+    add("ssdata", [R], out=sd)
+    add("ctrb", [A, B]); add("obsv", [A, C])
+    add("lyap" if cont else "dlyap", [A, eye(n)])
+    add("lqr_abqr", [A, B, eye(n), eye(m)])
+    add("care" if cont else "dare", [A, B, eye(n), eye(m)])
+    add("place", [A, B, [-1.0 - i for i in range(n)] if cont else [0.1 * (i + 1) for i in range(n)]])
+    if m == 1:
+        add("acker", [A, B, [-1.0 - i for i in range(n)] if cont else [0.1 * (i + 1) for i in range(n)]])
+    add("StateSpace", [A, B, C, {"item": [sd, 3]}] + ([] if cont else [dt_arg(dt)]), out="res")
+    # plots (default frequency ranges / pole-zero maps read the poles)
+    add("pzmap_plot", [R])
+    if plots:
+        add("bode_plot", [R])                        # 0.3 s per call
+    if tier != "quick":
+        add("singular_values_plot", [R]); add("resp_plot", [R])
+        if siso:
+            add("nyquist_plot", [R]); add("nichols_plot", [R]); add("root_locus_plot", [R])
+    return Q, sd
+
+
+def dt_arg(dt):
+    return {"N": None, "T": True, "C": 0}.get(dt, dt) if isinstance(dt, str) else dt
+
+
+LAYOUT_SOURCES = ["F", "T", "sim", "derived", "slice", "lit"]
+
+
+def sweep_layout(rng, tier):
+    """query-then-use on state-space systems whose own matrices are *not* the row-major, already
+    triangular arrays of the other streams: A with a general structure (never upper triangular
+    here) and >= 2 states, held column-major (built from np.asfortranarray data; a dual system built
+    from transposed arrays; the result of similarity_transform; a copy / negation / rescaling /
+    sampling of such a system), in a non-contiguous window, or row-major as a control.  Every
+    reading operation of `system_queries` is applied (in shuffled chunks, each between two
+    evaluations of the same probe); the system, every array it was built from and every earlier
+    result must stay as they were."""
+    cases = []
+    reps = 1 if tier == "quick" else 3
+    forms = [f for f in Gen.A_FORMS if f != "upper"]
+    mimo = [(2, 2), (2, 2), (1, 2), (2, 1)]
+    for rep in range(reps):
+        plot_src = rng.choice(LAYOUT_SOURCES[:4])
+        # among the four column-major sources of every repetition: continuous and discrete time,
+        # SISO (margins, root locus ...) and MIMO, at least two different structures of A
+        dts = ["C", "C", rng.choice([0.1, 0.5, "T"]), rng.choice(["C", 0.1])]
+        shapes = [(1, 1), (1, 1), rng.choice(mimo), rng.choice([(1, 1)] + mimo)]
+        rng.shuffle(dts)
+        rng.shuffle(shapes)
+        fs = rng.sample(forms, 4)
+        for k, src in enumerate(LAYOUT_SOURCES):
+            g = Gen(rng, tier)
+            g.cur = g.steps
+            p, m = shapes[k] if k < 4 else rng.choice([(1, 1), (1, 1)] + mimo)
+            n = rng.choice([2, 3, 3, 4])
+            dt = dts[k] if k < 4 else rng.choice(["C", "C", "C", 0.1, "T"])
+            form = fs[k] if k < 4 else rng.choice(forms)
+            name = g.fresh("S") if rng.random() < 0.5 else None
+            if src in ("F", "T", "slice", "lit"):
+                S = g.new_ss(p, m, dt=dt, via=src, n=n, form=form, name=name)
+            else:
+                S0 = g.new_ss(p, m, dt=dt, via=rng.choice(["lit", "arr", "F", "T"]) if src == "sim" else rng.choice(["F", "T"]),
+                              n=n, form=form, name=name)
+                S = g.out(dict(g.desc[S0]))
+                if src == "sim":
+                    g.emit(["op", S, "similarity_transform", [ref(S0), ref(g.new_arr((n, n), g.transform_T(n), layout=rng.choice([None, "F"])))], {}])
+                else:
+                    op, args = rng.choice([("m_copy", [ref(S0)]), ("neg", [ref(S0)]), ("ss", [ref(S0)]),
+                                           ("StateSpace", [ref(S0)]), ("mul", [2.0, ref(S0)]), ("mul", [ref(S0), 2.0]),
+                                           ("add", [ref(S0), 0.0]),
+                                           ("similarity_transform", [ref(S0), ref(g.new_arr((n, n), g.transform_T(n)))])])
+                    g.emit(["op", S, op, args, {}])
+            d = dict(g.desc[S], p=p, m=m, n=n, dt=dt)
+            head = list(g.steps)
+            Q, sd = system_queries(g, S, d, tier, plots=tier != "quick" or src == plot_src)
+            consts = g.steps[len(head):]            # arrays used by some of the queries
+            first, rest = Q[:4], Q[4:]              # poles / damp both as function and as method in every run
+            sdq = [q for q in rest if sd in F.slots_in(q[1], []) or q[3] == sd]
+            rest = [q for q in rest if q not in sdq]
+            rng.shuffle(rest)
+            rest = first + rest
+            chunks = [rest[i:i + 9] for i in range(0, len(rest), 9)] + [sdq]
+            z = {"cplx": [0.5, 2.0]}
+            for ch in chunks:
+                need = set(F.slots_in([q[1] for q in ch], []))
+                g.steps = list(head) + [st for st in consts if st[1] in need]
+                g.cur = g.steps
+                g.emit(["probe", "p1", "m_call", [ref(S), z], {}])
+                g.emit(["probe", "p2", "ssdata", [ref(S)], {}])
+                for op, args, kw, out in ch:
+                    slot = None if out is None else (g.out({"k": "res"}) if out == "res" else out)
+                    g.emit(["op", slot, op, copy.deepcopy(args), dict(kw)])
+                g.emit(["probe", "p1", "m_call", [ref(S), z], {}])
+                g.emit(["probe", "p2", "ssdata", [ref(S)], {}])
+                cases.append({"type": "hist", "hist": g.steps})
+    return cases
+
+
 def generate(rng, tier):
     n = 700 if tier == "quick" else 6000
-    return [gen_case(rng, tier) for _ in range(n)] + sweep_identity(rng, tier) + sweep_problem_history(rng, tier)
+    return [gen_case(rng, tier) for _ in range(n)] + sweep_identity(rng, tier) + sweep_problem_history(rng, tier) \
+        + sweep_layout(rng, tier)
 
 
 def corpus():
@@ -2085,6 +2368,33 @@ def corpus():
            {"initial_guess": {"item": ["ra", "inputs"]}, "print_summary": False}],
           ["op", "rc", "ocp_compute_trajectory", [ref("o"), ref("xb")], {"initial_guess": {"item": ["ra", "inputs"]}}],
           ["op", None, "ocp_compute_mpc", [ref("o"), ref("xa")], {}]),
+        # classes added after the third round of seeded changes (agree on the unchanged code):
+        # - a dual system built from transposed arrays (its own A is column-major and not triangular),
+        #   queried for its poles (function, method, damp, default frequency range) between two
+        #   evaluations; the system, the arrays it was built from and the probe must stay the same
+        H(["new", "A", "arr", {"v": [[0.0, 1.0, 0.0], [0.0, 0.0, 1.0], [-6.0, -11.0, -6.0]]}],
+          ["new", "At", "view", {"base": ref("A"), "how": "T", "shape": [3, 3]}],
+          ["new", "B", "arr", {"v": [[0.0, 0.0, 1.0]]}], ["new", "Bt", "view", {"base": ref("B"), "how": "T", "shape": [3, 1]}],
+          ["new", "C", "arr", {"v": [[4.0], [1.0], [0.0]]}], ["new", "Ct", "view", {"base": ref("C"), "how": "T", "shape": [1, 3]}],
+          ["new", "dual", "ss", {"abcd": [ref("At"), ref("Ct"), ref("Bt"), [[0.0]]]}],
+          ["probe", "p1", "m_call", [ref("dual"), {"cplx": [0.0, 1.0]}], {}],
+          ["probe", "p2", "m_dcgain", [ref("dual")], {}],
+          ["op", None, "m_poles", [ref("dual")], {}], ["op", None, "poles", [ref("dual")], {}],
+          ["op", None, "damp", [ref("dual")], {}], ["op", None, "frequency_response", [ref("dual"), None], {}],
+          ["op", None, "step_response", [ref("dual")], {}],
+          ["probe", "p1", "m_call", [ref("dual"), {"cplx": [0.0, 1.0]}], {}],
+          ["probe", "p2", "m_dcgain", [ref("dual")], {}]),
+        # - the same for np.asfortranarray data and for the result of similarity_transform
+        H(["new", "A", "arr", {"v": [[-1.0, 2.0, 0.0], [1.0, -2.0, 1.0], [0.0, 1.0, -3.0]], "order": "F"}],
+          ["new", "S", "ss", {"abcd": [ref("A"), [[0.0], [0.0], [1.0]], [[1.0, 0.0, 0.0]], [[0.0]]]}],
+          ["new", "T", "arr", {"v": [[1.0, 1.0, 0.0], [0.0, 1.0, 1.0], [0.0, 0.0, 1.0]]}],
+          ["op", "TS", "similarity_transform", [ref("S"), ref("T")], {}],
+          ["probe", "p1", "ssdata", [ref("TS")], {}], ["probe", "p2", "ssdata", [ref("S")], {}],
+          ["op", None, "poles", [ref("TS")], {}], ["op", None, "damp", [ref("TS")], {}],
+          ["op", None, "m_poles", [ref("S")], {}], ["op", None, "pzmap_plot", [ref("S")], {}],
+          ["op", "sd", "ssdata", [ref("S")], {}],
+          ["op", None, "lyap", [{"item": ["sd", 0]}, [[1.0, 0.0, 0.0], [0.0, 1.0, 0.0], [0.0, 0.0, 1.0]]], {}],
+          ["probe", "p1", "ssdata", [ref("TS")], {}], ["probe", "p2", "ssdata", [ref("S")], {}]),
     ] + systematic()
 
 
